@@ -315,3 +315,84 @@ Theorem C02_parser_operators_canonical :
   (forall s, canon_binop (X.Parse.Parser.binop_of_string s) = true).
 Proof. exact BrOpt.canonical_of_parser. Qed.
 Print Assumptions C02_parser_operators_canonical.
+
+(* ------------------------------------------------------------------------------------------------------------------
+   CAPSTONES: the main theorems restated over the REGENERATED rewrite rules only (Bridge/BrCapstoneC02.v composes them with
+   C02_model_optimizer_is_source_rules; the hand model Optimizer.optimize no longer occurs in the statements).
+     source_optimize fe env cn e  =  interp_optimize (gen_visitors GenOpt.passes fe env cn) (has_names cn) GenOpt.optimize_steps e
+   : the interpretation of the statements of optimizer.Optimize and of the five passes as regenerated into gen/GenOpt.v
+   (Some r: the interpreter finished with the optimizer's result r).  Reference side: Sem.eval, rsim / obs_eq, has_dz.
+   Hypotheses: `optimize_bridge_ok e` (the bridge's decidable condition: canonical operators throughout the tree) and the
+   `side_conditions` of C02_transparent_partial (negations of the recorded findings + annotation soundness at rewrite sites). *)
+Require Import X.Bridge.BrCapstoneC02.
+
+Theorem C02_source_optimize_unfold : forall fe env cn e,
+  source_optimize fe env cn e = interp_optimize (gen_visitors GenOpt.passes fe env cn) (has_names cn) GenOpt.optimize_steps e.
+Proof. exact (fun fe env cn e => eq_refl). Qed.
+
+Theorem C02_source_optimize_total : forall fe env cn e, optimize_bridge_ok e = true ->
+  exists r, source_optimize fe env cn e = Some r.
+Proof. exact src_optimize_total. Qed.
+
+Theorem C02_source_transparent_partial : forall fe cfg env cn e e',
+  optimize_bridge_ok e = true -> side_conditions fe cfg env cn e -> source_optimize fe env cn e = Some (OOk e') ->
+  forall ctx s, rsim vsim cn (eval fe cfg env ctx e' s) (eval fe cfg env ctx e s).
+Proof. exact src_transparent_partial. Qed.
+
+Theorem C02_source_transparent_obs : forall fe cfg env cn e e',
+  optimize_bridge_ok e = true -> side_conditions fe cfg env cn e -> source_optimize fe env cn e = Some (OOk e') ->
+  forall ctx s, (forall l s1, eval fe cfg env ctx e s <> Stop EBudget l s1) ->
+  obs_eq cn (eval fe cfg env ctx e' s) (eval fe cfg env ctx e s).
+Proof. exact src_transparent_obs. Qed.
+
+(* the regenerated rules reject only constant /0 and %0 (or a ConstExpr call failing at compile time) *)
+Theorem C02_source_only_div_zero_rejected : forall fe env cn e l,
+  optimize_bridge_ok e = true -> source_optimize fe env cn e = Some (OFail l) -> has_dz e = true \/ cx_fails fe env cn.
+Proof. exact src_only_div_zero_rejected. Qed.
+
+Theorem C02_source_constexpr_pure : forall fe cfg env cn e,
+  optimize_bridge_ok e = true -> side_conditions fe cfg env cn e ->
+  (forall e', source_optimize fe env cn e = Some (OOk e') ->
+     forall ctx s, rsim vsim cn (eval fe cfg env ctx e' s) (eval fe cfg env ctx e s)) /\
+  (forall l, source_optimize fe env cn e = Some (OFail l) -> has_dz e = true \/ cx_fails fe env cn).
+Proof. exact src_constexpr_pure. Qed.
+
+(* the full statement over the regenerated rules (every canonical tree, no side condition) is false: the nine
+   witnesses of the recorded findings are canonical trees *)
+Definition C02_source_transparent_full_statement : Prop := src_transparent_full_statement.
+Theorem C02_source_full_statement_refuted :
+  (optimize_bridge_ok w_budget = true /\ K_budget w_budget = true /\ ~ C02_source_transparent_full_statement) /\
+  (optimize_bridge_ok w_array_type = true /\ K_array_fold w_array_type = true /\ ~ C02_source_transparent_full_statement) /\
+  (optimize_bridge_ok w_array_deep = true /\ K_array_fold w_array_deep = true /\ ~ C02_source_transparent_full_statement) /\
+  (optimize_bridge_ok w_double = true /\ K_in_range_double_eval w_double = true /\ ~ C02_source_transparent_full_statement) /\
+  (optimize_bridge_ok w_nil_range = true /\ K_in_range_nil_type w_nil_range = true /\ ~ C02_source_transparent_full_statement) /\
+  (optimize_bridge_ok w_narrow = true /\ K_in_range_narrow w_narrow = true /\ ~ C02_source_transparent_full_statement) /\
+  (optimize_bridge_ok w_nil_array = true /\ ~ C02_source_transparent_full_statement) /\
+  (optimize_bridge_ok w_retyped_int = true /\ K_retyped [] w_retyped_int = true /\ ~ C02_source_transparent_full_statement) /\
+  (optimize_bridge_ok w_retyped_float = true /\ K_retyped [] w_retyped_float = true /\ ~ C02_source_transparent_full_statement).
+Proof.
+  exact (conj src_budget_refuted (conj src_array_fold_type_refuted (conj src_array_fold_deep_equal_refuted
+        (conj src_in_range_double_eval_refuted (conj src_in_range_nil_type_refuted (conj src_in_range_narrow_int_refuted
+        (conj src_in_array_nil_type_refuted (conj src_fold_retyped_int_refuted src_fold_retyped_float_refuted)))))))).
+Qed.
+
+Definition C02_source_capstones :=
+  (C02_source_optimize_total, C02_source_transparent_partial, C02_source_transparent_obs, C02_source_only_div_zero_rejected,
+   C02_source_constexpr_pure, C02_source_full_statement_refuted).
+Print Assumptions C02_source_capstones.
+
+(* non-vacuity: one tree meets ALL hypotheses at once and the regenerated rules rewrite it; the theorem applied;
+   a constant 1 / (1 - 1) is rejected by the regenerated rules *)
+Example C02_source_hypotheses_inhabited :
+  optimize_bridge_ok x_expr = true /\ side_conditions w_fe (w_cfg 1000) x_env [] x_expr /\
+  exists e', source_optimize w_fe x_env [] x_expr = Some (OOk e') /\ e' <> x_expr.
+Proof. exact src_hypotheses_inhabited. Qed.
+
+Example C02_source_transparent_applied : exists e', source_optimize w_fe x_env [] x_expr = Some (OOk e') /\ e' <> x_expr /\
+  forall ctx s, rsim vsim [] (eval w_fe (w_cfg 1000) x_env ctx e' s) (eval w_fe (w_cfg 1000) x_env ctx x_expr s).
+Proof. exact src_transparent_applied. Qed.
+
+Example C02_source_div_zero_is_rejected :
+  optimize_bridge_ok (EBinary (A ki) BDiv (lit 1) (EBinary (A ki) BSub (lit 1) (lit 1))) = true /\
+  exists l, source_optimize w_fe w_env [] (EBinary (A ki) BDiv (lit 1) (EBinary (A ki) BSub (lit 1) (lit 1))) = Some (OFail l).
+Proof. exact src_div_zero_is_rejected. Qed.
